@@ -15,9 +15,9 @@ chains), (c) the bi-affine product (`*` / `@`, either order) of a decision expre
 RSOME reads a sparse constant as its dense array (so `S * e` is element-wise although scipy's own `*` of a
 *_matrix is the matrix product); the reference therefore is NumPy applied to S.toarray().  The constants
 have a zero entry and are constant along no row and no column, so "row sum instead of entry", "matrix
-product instead of element-wise" and "stored pattern instead of array" all change a basis value.  Where RSOME raises on the sparse container the
-chain is re-run with the dense array: dense accepted + sparse failing with anything but TypeError (RSOME's own
-refusal of an operand type) is a violation (the container, not the operation, broke it).
+product instead of element-wise" and "stored pattern instead of array" all change a basis value.  Where RSOME raises on the sparse container
+the chain is re-run with the dense array: dense accepted + sparse failing with anything but TypeError (RSOME's
+own refusal of an operand type) is a violation (the container, not the operation, broke it).
 """
 import itertools
 import numpy as np
